@@ -7,6 +7,7 @@ import (
 
 	"github.com/pkg/errors"
 	"go.brendoncarroll.net/p2p"
+	"go.brendoncarroll.net/p2p/verifhook"
 )
 
 type collector struct {
@@ -95,6 +96,7 @@ func (fl *fragLayer) handlePart(remote p2p.Addr, gid GroupID, partIndex, partCou
 		return err
 	}
 	col.addPart(int(partIndex), body)
+	verifhook.Point(verifhook.MbappAfterAddPart)
 	if !col.isComplete() {
 		return nil
 	}
